@@ -78,7 +78,14 @@ enum Pos {
     LaterVariant,
     /// the same type twice in one definition, only the second one with wrong information
     SecondUse,
+    /// the same type twice, only the first one wrong (a correct use follows in a later variant)
+    FirstOfTwo,
+    /// the same type twice in one variant, the wrong one added first / added last
+    SameVariantWrongFirst,
+    SameVariantWrongLast,
 }
+
+const POSITIONS: [Pos; 6] = [Pos::FirstVariant, Pos::LaterVariant, Pos::SecondUse, Pos::FirstOfTwo, Pos::SameVariantWrongFirst, Pos::SameVariantWrongLast];
 
 struct Case {
     ty: usize,
@@ -139,6 +146,24 @@ fn source(t: &Ty, c: &Case) -> Option<String> {
             (t.add)(&mut b, "subject", o);
             b.close_record_variant();
         }
+        Pos::FirstOfTwo => {
+            (t.add)(&mut b, "subject", o);
+            b.close_record_variant();
+            (t.add)(&mut b, "second_use", plain());
+            b.close_record_variant();
+        }
+        Pos::SameVariantWrongFirst => {
+            b.add_datum::<u8, _>("lead").unwrap();
+            (t.add)(&mut b, "subject", o);
+            (t.add)(&mut b, "other_use", plain());
+            b.close_record_variant();
+        }
+        Pos::SameVariantWrongLast => {
+            b.add_datum::<u8, _>("lead").unwrap();
+            (t.add)(&mut b, "other_use", plain());
+            (t.add)(&mut b, "subject", o);
+            b.close_record_variant();
+        }
     }
     let def = b.build();
     let code = generate(&def, &GeneratorConfig::default());
@@ -151,7 +176,7 @@ pub fn main(args: &Args, ext: &Externs) -> i32 {
     let mut cases = vec![];
     for ty in 0..ts.len() {
         for pert in PERTS {
-            for pos in [Pos::FirstVariant, Pos::LaterVariant, Pos::SecondUse] {
+            for pos in POSITIONS {
                 cases.push(Case { ty, pert, pos });
             }
         }
@@ -267,7 +292,7 @@ pub fn main(args: &Args, ext: &Externs) -> i32 {
     report
         .cov("evaluations", n)
         .cov("distinct_nontrivial", perturbed)
-        .cov("rule", format!("every type of a {}-type menu x {{first variant, later variant, second use of the type}} x {{unperturbed, size-1, size+1, 2*size, align/2, 2*align, may-be-uninit flag}} recorded through add_datum_override, generated by the real generate() and type-checked by rustc --emit=metadata; non-trivial = a perturbed (or flag-on-non-Copy) case, distinct by construction", ts.len()))
+        .cov("rule", format!("every type of a {}-type menu x {{first variant, later variant, second use wrong, first of two uses wrong, same variant wrong first / last}} x {{unperturbed, size-1, size+1, 2*size, align/2, 2*align, may-be-uninit flag}} recorded through add_datum_override, generated by the real generate() and type-checked by rustc --emit=metadata; non-trivial = a perturbed (or flag-on-non-Copy) case, distinct by construction", ts.len()))
         .cov("samples", samples)
         .cov("exhaustive", true)
         .cov("perturbed_rejected_by_the_emitted_assertion", rejected)
